@@ -19,6 +19,27 @@ from .. import build, enc, keylife, keys as K
 from ..common import MachineryError, import_pgpy, octets
 
 
+def independent_recovery(label, pb, orig_secret, pw):
+    """'recover' event: the harness's RFC 4880 reader applied to one protected secret-key packet body written by PGPy (S2K usage octet,
+    cipher, iterated-salted specifier, IV, CFB data); TLC checks the layout and that the plaintext is the original secret + SHA-1."""
+    p = build.pub_portion_len(pb)
+    e = {'k': 'recover', 'label': label, 'body': octets(pb), 'publen': p, 'orig_secret': octets(orig_secret)}
+    try:
+        usage, sym, spec, hid = pb[p], pb[p + 1], pb[p + 2], pb[p + 3]
+        salt = bytes(pb[p + 4:p + 12])
+        c = pb[p + 12]
+        bs = enc.SYM[sym][3]
+        iv = bytes(pb[p + 13:p + 13 + bs])
+        ct = bytes(pb[p + 13 + bs:])
+        pwb = pw if isinstance(pw, bytes) else pw.encode('utf-8')
+        key = enc.s2k_derive(spec, hid, salt, c, pwb, enc.SYM[sym][2])
+        pt = enc.cfb(sym, key, ct, True, iv=iv)
+        e.update({'pt': octets(pt), 'sha1_all_but_last_20': octets(hashlib.sha1(pt[:-20]).digest()), 'failed': False})
+    except Exception as ex:
+        e.update({'pt': [], 'sha1_all_but_last_20': [], 'failed': True, 'exc': repr(ex)[:80]})
+    return e
+
+
 def recover_events(ctx):
     """independent recovery from PGPy's protected export + foreign protected forms."""
     pgpy = import_pgpy()
@@ -114,6 +135,19 @@ def recover_events(ctx):
                         e['sign_ok'] = bool(pub.verify('foreign text', s))
                     e['relocked'] = not k.is_unlocked
                     e['raised'] = False
+                    # history: the imported key is given a new passphrase (protect inside an unlock scope); the result must again be a key an
+                    # independent reader opens with the new passphrase, whatever form it arrived in
+                    try:
+                        with k.unlock('foreign pass ✓'):
+                            k.protect('a new passphrase', pgpy.constants.SymmetricKeyAlgorithm.AES256, pgpy.constants.HashAlgorithm.SHA256)
+                        pb2 = next(b for t_, b, r_ in build.read_packets(bytes(k)) if t_ == 5)
+                        ev.append(independent_recovery('%s %s: re-protected with a new passphrase' % (kind, label), pb2, sm, 'a new passphrase'))
+                        k3 = pgpy.PGPKey.from_blob(bytes(k))[0]
+                        with k3.unlock('a new passphrase'):
+                            e['sign_ok'] = e['sign_ok'] and bool(pub.verify('foreign text', k3.sign('foreign text', created=K.ts(K.T0 + 4))))
+                    except Exception as ex:
+                        e['sign_ok'] = False
+                        e['exc'] = 're-protect: ' + repr(ex)[:90]
                 except Exception as ex:
                     e.update({'raised': True, 'exc': repr(ex)[:100]})
                     for f_ in ('loaded_protected', 'wrong_refused', 'sign_ok', 'relocked'):
